@@ -64,10 +64,10 @@ def _gen_site(rng, mode, first=False):
     if first:
         dist = "normal"
     elif mode == "gen":
-        dist = str(rng.choice(GEN_DISTS, p=_norm([5, 1, 2, 1, 1, 1, 2, 2])))
+        dist = str(rng.choice(GEN_DISTS, p=_norm([5, 1, 2, 1, 0.4, 1, 2, 2])))
     else:
         names = list(DISTS)
-        w = [6, 1, 2, 1.5, 1, 1, 1, 1, 2, 2, 1]
+        w = [6, 1, 2, 1.5, 0.4, 0.4, 1, 1, 2, 2, 0.4]
         dist = str(rng.choice(names, p=_norm(w)))
     st = {"op": "site", "dist": dist, "a": _r(rng, 0.5, 1.5), "b": _r(rng, 0.7, 1.6)}
     kw = DISTS[dist][1]
@@ -161,7 +161,7 @@ def gen_program(rng, family, tier="quick"):
     """family: plain | gfi | mixed | binder"""
     depth = 2 if tier == "quick" else 3
     sites = int(rng.integers(3, 8)) if tier == "quick" else int(rng.integers(3, 11))
-    budget = {"sites": sites, "ctl": int(rng.integers(1, 4))}
+    budget = {"sites": sites, "ctl": int(rng.integers(1, 3 if tier == "quick" else 4))}
     spec = {
         "family": family,
         "x": str(rng.choice(X_VARIANTS, p=_norm([3, 2, 2, 1, 1]))),
@@ -254,11 +254,14 @@ def count_sites(spec):
 
 
 def has_compiled_control_flow(spec):
-    """scan / cond anywhere: an eager seeded run then compiles on every call."""
+    """scan / cond / while (rejection samplers) anywhere: an eager seeded run
+    then compiles on every call."""
 
     def walk(block):
         for st in block:
             if st["op"] in ("scan", "cond"):
+                return True
+            if st["op"] == "site" and DISTS[st["dist"]][2]:
                 return True
             for k in ("body", "t", "f", "model"):
                 if k in st and walk(st[k]):
